@@ -48,6 +48,7 @@ FRAGMENT_NAMES = [
     "paragraph break", "star", "space", "word", "block comment end inside an inline literal", "Java Unicode escape of a line feed",
     "Java Unicode escape of a star, then slash", "line feed inside a paragraph", "LINE SEPARATOR U+2028", "opening brace",
     "CDATA section end", "CDATA section start", "processing instruction start", "entity reference as text", "character reference as text",
+    "emphasised word", "slash", "inline literal",
 ]
 PATTERN_NAMES = [
     "double quote", "single quote", "backslash", "block comment end", "block comment start", "line comment start", "XML comment start", "XML comment end",
@@ -85,7 +86,10 @@ def choose_cases(ck: core.Check, gen: Dict[str, Any], rnd: random.Random, n_quic
     pl = sorted(gen["payloads"], key=lambda p: (len(p["ids"]), p["ids"], p["layout"]))
     quoting = lambda p: all(i in QUOTING for i in p["ids"])
     singles_tail = [p for p in pl if len(p["ids"]) == 1 and p["layout"] == "tail"]
-    breaks = [p for p in pl if p["layout"] == "tail" and p["ids"] in ([16, 19], [23, 19], [24, 19])]
+    # (break fragment, word): a second paragraph / line; (inline node, slash) and (star, slash): a comment terminator
+    # assembled across the boundary of two inline nodes (emphasis renders as *w*)
+    breaks = [p for p in pl if p["layout"] in ("tail", "mid") and p["ids"] in ([16, 19], [23, 19], [24, 19], [31, 32], [33, 32], [17, 32], [31, 32, 31])
+              and (p["layout"] == "tail" or p["ids"][0] in (31, 33))]
     quoting_tail = [p for p in pl if len(p["ids"]) > 1 and p["layout"] == "tail" and quoting(p)]
     quoting_long = [p for p in pl if p["layout"] == "longtail" and quoting(p)]
     fixed = singles_tail + breaks + quoting_tail
